@@ -237,6 +237,12 @@ EXTRA['C15'] += '; instants after 2106 up to and beyond year 9999 (encode)'
 EXTRA['C03'] += '; almost homogeneous arrays'
 EXTRA['C05'] += ('; data bytes equal to type tags; decoding under narrow '
                  'decimal contexts')
+for _k in ('C01', 'C02', 'C04', 'C05', 'C06', 'C07', 'C09', 'C10', 'C12',
+           'C13', 'C14', 'C15', 'C17', 'C18', 'C19', 'C20'):
+    EXTRA[_k] += ('; frames carrying a Decimal re-run under six caller decimal '
+                  'contexts, every fourth judged marshal preceded by another '
+                  'use of the same frame object with other content')
+EXTRA['C14'] += '; tables of built frames filled in by the application'
 
 NOTE = ('Trusted base: CPython 3.12 sys.monitoring, struct/decimal/datetime; '
         'the hand-transcribed tables in vmon/refspec.py and the reference '
